@@ -977,6 +977,13 @@ def r_pair(ctx):
             for atom, pol in ctx.conds(f, nd):
                 if pol and atom[0] == 'cmp' and atom[1] == '==' and atom[3] == ('c', 0) and is_call(atom[2], 'builtins.len'):
                     okk = True
+                # any other spelling of "the list is empty" (len(x) < 1, not len(x) > 0, len(x) <= 0): true for 0, false for 1 and 2
+                lens_ = [x for x in walk_term(atom) if is_call(x, 'builtins.len') and len(x[2]) == 1 and
+                         any(y[0] == 'v' and y[1] == 'latter_map' for y in walk_term(x[2][0]))]
+                if lens_ and atom[0] == 'cmp':
+                    tv = [feval(atom, lambda x, n_=n_: n_ if x == lens_[0] else UNKNOWN) for n_ in (0, 1, 2)]
+                    if all(v is not UNKNOWN for v in tv) and [bool(v) == pol for v in tv] == [True, False, False]:
+                        okk = True
                 # `if not latter_map[u]:`  (an empty list is falsy); also through a name bound to that list
                 tgt_ = atom
                 if tgt_[0] == 'v' and isinstance(tgt_[2], tuple):
